@@ -2,7 +2,7 @@
    Only final statements; every proof is `exact <lemma>`.  The algorithm is the term generated
    from /repo/emu_base/math/brents_root_finding.py (Gen/Brent.v) at the R instance. *)
 From Coq Require Import Reals List.
-From EV Require Import Base.Arith Gen.Brent Model.BrentLoop Proofs.BrentProofs.
+From EV Require Import Base.Arith Gen.Brent Model.BrentLoop Proofs.BrentProofs Proofs.BrentTermination.
 Open Scope R_scope.
 
 (* Every round (query + arbitrary ordinate) from a state satisfying the invariant succeeds — no
@@ -56,3 +56,15 @@ Proof. exact loop_eq_script. Qed.
 Theorem C19_init_accepts_iff_bracket : forall start end_ fs fe eps (s : st R),
   init R_arith start end_ fs fe eps = Ok s -> start <= end_ /\ fs * fe < 0.
 Proof. exact init_ok_inv. Qed.
+
+(* Partial termination: whenever every round the search takes is a bisection (this is what epsilon = 1
+   forces in the quantum-jump search once the bracket is shorter than 2|b|), a script of n ordinates
+   is enough as soon as |b - a| < tol * 2^n; the search then stops converged after at most n queries.
+   Unconditional termination is false in exact arithmetic (accepted secant steps can shrink the bracket
+   by less than any fixed factor forever); see DESIGN.md. *)
+Theorem C19_bisection_terminates_partial : forall (ys : list R) (tol : R) (s : st R),
+  Inv s -> all_bisections ys tol s ->
+  Rabs (f_b s - f_a s) < tol * 2 ^ (length ys) ->
+  exists s', snd (run_script R_arith ys tol s) = Ok s' /\ converged s' tol /\
+             (length (fst (run_script R_arith ys tol s)) <= length ys)%nat.
+Proof. exact bisection_terminates. Qed.
